@@ -74,6 +74,7 @@ type Truth struct {
 type SignEvent struct {
 	ID  hotstuff.ID
 	Msg []byte
+	Tag string // "<id>:<short hash of msg>", precomputed for state keys
 }
 
 func NewTruth() *Truth { return &Truth{signed: map[[32]byte]map[hotstuff.ID]int{}} }
@@ -87,7 +88,7 @@ func (t *Truth) record(id hotstuff.ID, msg []byte) {
 		t.signed[h] = m
 	}
 	m[id]++
-	t.Log = append(t.Log, SignEvent{ID: id, Msg: append([]byte(nil), msg...)})
+	t.Log = append(t.Log, SignEvent{ID: id, Msg: append([]byte(nil), msg...), Tag: fmt.Sprintf("%d:%x", id, h[:6])})
 	t.mu.Unlock()
 }
 
